@@ -183,13 +183,17 @@ func checkC08(c *Ctx) {
 			ru5.OK(key, c.where(f, f), "delegates to another mutator")
 			continue
 		}
-		f, _ = c.mutatorCore(d, f, 2)
+		// the mutator and the package helpers it hands the work to (other mutators excluded)
+		var blocks []*ssa.BasicBlock
+		for _, g := range c.funcsDeepStop(f, 2, func(g *ssa.Function) bool { return g.Package() != d.pkg || d.mutatorOf(g) != nil }) {
+			blocks = append(blocks, g.Blocks...)
+		}
 		want, other := "LastAdded", "LastDeleted"
 		if m.kind == "deleted" {
 			want, other = other, want
 		}
 		okStamp, badStamp := false, ""
-		for _, b := range f.Blocks {
+		for _, b := range blocks {
 			for _, in := range b.Instrs {
 				st, ok := in.(*ssa.Store)
 				if !ok {
